@@ -253,6 +253,47 @@ func TestVerifC17(t *testing.T) {
 			s.ClassN("class/"+c.name, int(tl.evals-before))
 		}
 	}
+	if !vkit.Thorough() {
+		// every format of the reference table: words with random free bits, register/immediate fields biased to 0 and all-ones
+		before := tl.evals
+		x := vkit.Seed()*0x9e3779b97f4a7c15 + 12345
+		next := func() uint32 {
+			x ^= x << 13
+			x ^= x >> 7
+			x ^= x << 17
+			return uint32(x >> 16)
+		}
+		var words []uint32
+		seen := map[uint32]bool{}
+		for _, f := range refarm64.FormatMasks() {
+			for k := 0; k < 4000; k++ {
+				r := next()
+				bias := next()
+				for fi, field := range []uint32{0x1f, 0x1f << 5, 0x3f << 10, 0x3f << 16, 0x3 << 22} {
+					switch (bias >> (2 * uint(fi))) & 3 {
+					case 0:
+						r &^= field
+					case 1:
+						r |= field
+					}
+				}
+				w := f[1] | (r &^ f[0])
+				if inBranchClass(w) || seen[w] {
+					continue // branch classes are enumerated above; keep every counted word distinct
+				}
+				if (uint64(w)+4099-vkit.Seed()%4099)%4099 == 0 {
+					continue // already in the strided sample
+				}
+				seen[w] = true
+				words = append(words, w)
+			}
+		}
+		scanList(words, &tl, &fail)
+		if report() {
+			return
+		}
+		s.ClassN("per-format-samples", int(tl.evals-before))
+	}
 	s.Eval(int(tl.evals))
 	s.ClassN("decodable", int(tl.decodable))
 	s.ClassN("with-pcrel-argument", int(tl.pcrel))
